@@ -4,6 +4,8 @@
 //
 // exit 0: every job ok; 3: some job raised occa::exception; 4: other C++ exception;
 // a signal (SIGSEGV ...) is reported by the tracer as a crash.
+#include <fcntl.h>
+#include <unistd.h>
 #include <cstdio>
 #include <cstdlib>
 #include <cstring>
@@ -67,6 +69,8 @@ static std::string oneLine(std::string s) {
   return s;
 }
 
+static int g_child = -1;     // worker index after a "prefork" (else -1)
+
 int main(int argc, char **argv) {
   if (argc < 2) { fprintf(stderr, "usage: occa_builder job.json\n"); return 9; }
   json spec = json::read(argv[1]);
@@ -78,10 +82,36 @@ int main(int argc, char **argv) {
     dprops["mode"] = mode;
     occa::device dev(dprops);
     json jobs = spec["jobs"];
+    // "prefork": N - the process first builds the "warm" kernels itself (so that whatever libocca keeps in the
+    // process - devices, caches, generators - exists), then forks N workers which run the job list; the parent leaves
+    int &child = g_child;
+    const int prefork = spec.get("prefork", 0);
+    if (prefork > 0) {
+      json warm = spec["warm"];
+      for (int j = 0; warm.isInitialized() && j < warm.size(); ++j) {
+        json job = warm[j];
+        json props = job["props"];
+        if (!props.isInitialized()) props = json(json::object_);
+        dev.buildKernelFromString(job["source"], job.get<std::string>("kernel", "k"), props);
+      }
+      std::cout.flush();
+      {
+        // announce the forks to the simulator (it schedules the workers as virtual processes of their own)
+        const std::string marker = spec.get<std::string>("fork_marker", "") + std::to_string(prefork);
+        int fd = open(marker.c_str(), O_RDONLY);
+        if (fd >= 0) close(fd);
+      }
+      for (int c = 0; c < prefork && child < 0; ++c) {
+        pid_t pid = fork();
+        if (pid == 0) child = c;
+      }
+      if (child < 0) _exit(0);
+    }
     for (int j = 0; j < jobs.size(); ++j) {
       json job = jobs[j];
       json out(json::object_);
       out["job"] = j;
+      if (child >= 0) out["child"] = child;
       try {
         const std::string name = job.get<std::string>("kernel", "k");
         // files (re)written by this process right before the build: {path: contents}
@@ -165,13 +195,16 @@ int main(int argc, char **argv) {
   } catch (occa::exception &e) {
     json out(json::object_);
     out["job"] = -1; out["status"] = "exception"; out["what"] = oneLine(e.message);
+    if (g_child >= 0) out["child"] = g_child;
     std::cout << out.dump(0) << std::endl;
     return 3;
   } catch (std::exception &e) {
     json out(json::object_);
     out["job"] = -1; out["status"] = "std::exception"; out["what"] = oneLine(e.what());
+    if (g_child >= 0) out["child"] = g_child;
     std::cout << out.dump(0) << std::endl;
     return 4;
   }
+  std::cout.flush();
   return rc;
 }
